@@ -40,10 +40,29 @@ def step_items(props, tier, flavours=FLAVOURS, policies=POLICIES, ops=('get', 'i
     return out
 
 
+def wrap_items(props, tier, pred=None, patterns=('same',), second=(False,)):
+    from .wrap import subjects
+    out = []
+    for name, r in subjects().items():
+        if any(t != 'u64' for a, t in r['args']): continue
+        if r['group'] in ('key', 'gate'): continue
+        if pred and not pred(r): continue
+        if tier == 'quick' and r['group'] == 'cfg' and r['intended']['policy'] not in ('FIFO', 'LFU', 'TLRU') and 'C19' not in props: continue
+        for n in (0, 1, 2):
+            if len(r['args']) == 0 and not r['recv'] and n > 1: continue
+            for pat in patterns:
+                if pat == 'other-thread' and n == 0: continue
+                for sec in second:
+                    if sec and pat != 'same': continue
+                    if tier == 'quick' and n == 2 and (r['intended']['max_memory'] is not None and r['intended']['result']): continue
+                    out.append(dict(kind='wrap', subject=name, n=n, pattern=pat, second=sec, props=list(props)))
+    return out
+
+
 def items_for(prop, tier):
     p = prop
-    if p == 'C01': return step_items(['C01'], tier)
-    if p == 'C03': return step_items(['C03'], tier, ops=('get', 'insert'), need=lambda fl, pol, op, L, T, M, fw: not L and not T and not M)
+    if p == 'C01': return step_items(['C01'], tier) + wrap_items(['C01'], tier, second=(False, True))
+    if p == 'C03': return step_items(['C03'], tier, ops=('get', 'insert'), need=lambda fl, pol, op, L, T, M, fw: not L and not T and not M) + wrap_items(['C03'], tier, pred=lambda r: not r['intended']['cache_if'] and not r['intended']['invalidate_on'], second=(False, True))
     if p == 'C04': return step_items(['C04'], tier, need=lambda fl, pol, op, L, T, M, fw: L or op == 'get')
     if p == 'C05': return step_items(['C05'], tier, ops=('insert_with_memory',))
     if p == 'C06': return step_items(['C06'], tier, ops=('get', 'insert'), need=lambda fl, pol, op, L, T, M, fw: T or op == 'insert')
@@ -51,4 +70,9 @@ def items_for(prop, tier):
     if p == 'C08': return step_items(['C08'], tier, policies=['LFU', 'ARC', 'TLRU'])
     if p == 'C15': return step_items(['C15'], tier, flavours=['G', 'A'], ops=('get',))
     if p == 'C16': return step_items(['C16'], tier)
+    if p == 'C09': return wrap_items(['C09'], tier, pred=lambda r: r['intended']['result'], second=(False, True))
+    if p == 'C10': return wrap_items(['C10'], tier, pred=lambda r: r['intended']['cache_if'] or r['group'] in ('plain', 'res'), second=(False,))
+    if p == 'C11': return wrap_items(['C11'], tier, pred=lambda r: r['intended']['invalidate_on'] or r['group'] in ('plain',), second=(False, True))
+    if p == 'C14': return wrap_items(['C14'], tier, pred=lambda r: r['group'] in ('cfg', 'plain', 'sig', 'method', 'meta', 'mem'), patterns=('same', 'other-thread'))
+    if p == 'C19': return wrap_items(['C19'], tier)
     return []
